@@ -88,6 +88,15 @@ pub enum Guard<T> {
     Panic(String),
 }
 
+impl<T> Guard<T> {
+    pub fn map<U>(self, f: impl FnOnce(T) -> U) -> Guard<U> {
+        match self {
+            Guard::Done(v) => Guard::Done(f(v)),
+            Guard::Panic(p) => Guard::Panic(p),
+        }
+    }
+}
+
 /// run `f`, converting a panic into a value (message @ file:line)
 pub fn guard<T>(f: impl FnOnce() -> T) -> Guard<T> {
     match catch_unwind(AssertUnwindSafe(f)) {
